@@ -66,9 +66,21 @@ func VerifStickyPlan(members map[string]ConsumerGroupMemberMetadata, topics map[
 	return
 }
 
+// VerifSticky is a sticky strategy value that can be reused across Plan calls (as the BalanceStrategySticky singleton is by
+// real consumer groups).
+type VerifSticky struct{ s *stickyBalanceStrategy }
+
+// VerifNewSticky returns a fresh strategy value.
+func VerifNewSticky() *VerifSticky { return &VerifSticky{s: &stickyBalanceStrategy{}} }
+
 // VerifStickyPlanInto is VerifStickyPlan reporting into a trace the caller already holds (so that a watchdog can read
 // what was reported when Plan does not return).
 func VerifStickyPlanInto(tr *VerifStickyTrace, members map[string]ConsumerGroupMemberMetadata, topics map[string][]int32) (plan BalanceStrategyPlan, err error, panicked string) {
+	return VerifStickyPlanOn(nil, tr, members, topics)
+}
+
+// VerifStickyPlanOn runs Plan on the given strategy value (nil: a fresh one).
+func VerifStickyPlanOn(inst *VerifSticky, tr *VerifStickyTrace, members map[string]ConsumerGroupMemberMetadata, topics map[string][]int32) (plan BalanceStrategyPlan, err error, panicked string) {
 	tr.Other = map[string]int{}
 	self := verifGoroutineID()
 	tpOf := func(a []interface{}) VerifTP { return VerifTP{a[0].(string), a[1].(int32)} }
@@ -112,6 +124,9 @@ func VerifStickyPlanInto(tr *VerifStickyTrace, members map[string]ConsumerGroupM
 		}
 	}()
 	s := &stickyBalanceStrategy{}
+	if inst != nil {
+		s = inst.s
+	}
 	plan, err = s.Plan(members, topics)
 	return
 }
